@@ -88,23 +88,19 @@ func (e *Encoder) writeMap(data interface{}) (int, error) {
 	// object data MUST not be unpacked
 	vv := reflect.ValueOf(data)
 
+	// a nil or empty map is written as null and takes no ref ordinal
+	if uv := UnpackPtrValue(vv); (uv.Kind() == reflect.Ptr && !uv.Elem().IsValid()) ||
+		(uv.Kind() == reflect.Map && uv.Len() == 0) {
+		e.writeBT(_nilTag)
+		return 0, nil
+	}
+
 	// check ref
 	if n, ok := e.checkEncodeRefMap(vv); ok {
 		return e.writeRef(n)
 	}
 
 	vv = UnpackPtrValue(vv)
-	// check nil map
-	if vv.Kind() == reflect.Ptr && !vv.Elem().IsValid() {
-		e.writeBT(_nilTag)
-		return 0, nil
-	}
-
-	keys := vv.MapKeys()
-	if len(keys) == 0 {
-		e.writeBT(_nilTag)
-		return 0, nil
-	}
 
 	typ := vv.Type()
 
